@@ -123,6 +123,8 @@ def run_task(task):
     out = {"status": res["status"], "digest": res.get("digest"), "stats": res.get("stats", {}),
            "nontrivial": res.get("nontrivial", False), "sample": res.get("sample"),
            "run_seed": run_seed, "reject_reasons": res.get("reject_reasons")}
+    if task.get("return_scenario"):
+        out["scenario"] = final
     known = task.get("known") or []
     all_viols = relevant(res.get("violations", []), prop)
     viols = [v for v in all_viols if not match_known(prop, v, known)]
